@@ -17,7 +17,8 @@ SIM_V = [{"db": "memdb", "init": True}]
 
 
 def cases_of(ctx, R, cfg, label):
-    r = vlib.run_tlc(R.lctx, "MCMerkleProof", cfg, tags=("CASE",), timeout=2400, workers=4)
+    with vt.TLC_SLOTS:
+        r = vlib.run_tlc(R.lctx, "MCMerkleProof", cfg, tags=("CASE",), timeout=2400, workers=4, jvm=["-Xmx4g"])
     vlib.require_model_ok(r, cfg)
     with R.lock:
         ctx.add_tlc(r, label)
